@@ -190,13 +190,24 @@ func Parse(line string, b literal.Builder) (*Triple, error) {
 	if len(idxp) == 0 {
 		return nil, fmt.Errorf("triple.Parse could not split s p o  out of %s", raw)
 	}
-	// The predicate ends after the subject: look for its end from where it starts.
+	// The predicate ends after the subject: look for its end from where it starts,
+	// past its quoted ID (which may itself hold "] /": spaces are not escaped).
 	pStart := idxp[1] - 1
-	idxo := oSplit.FindIndex([]byte(raw[pStart:]))
+	idEnd := pStart + 1
+	for idEnd < len(raw) && raw[idEnd] != '"' {
+		if raw[idEnd] == '\\' {
+			idEnd++
+		}
+		idEnd++
+	}
+	if idEnd > len(raw) {
+		idEnd = len(raw)
+	}
+	idxo := oSplit.FindIndex([]byte(raw[idEnd:]))
 	if len(idxo) == 0 {
 		return nil, fmt.Errorf("triple.Parse could not split s p o  out of %s", raw)
 	}
-	idxo[0], idxo[1] = idxo[0]+pStart, idxo[1]+pStart
+	idxo[0], idxo[1] = idxo[0]+idEnd, idxo[1]+idEnd
 	ss, sp, so := raw[0:idxp[0]+1], raw[pStart:idxo[0]+1], raw[idxo[1]-1:]
 	s, err := node.Parse(ss)
 	if err != nil {
